@@ -1950,8 +1950,8 @@ impl Scenario for PoolSim {
 
     fn num_cases(&self, tier: Tier) -> (u64, u64) {
         match tier {
-            Tier::Quick => (0, 40_000),
-            Tier::Thorough => (0, 3_000_000),
+            Tier::Quick => (0, 300_000),
+            Tier::Thorough => (0, 20_000_000),
         }
     }
 
